@@ -1,7 +1,67 @@
-/- C07: kernel-checked witnesses -/
-import ChibiVerif.Model.ConstElab
+/- C07: kernel-checked witnesses (every `theorem` here is closed by `decide`: the kernel evaluates the translated folder). -/
+import ChibiVerif.Props.C07
 
 namespace ChibiVerif.Findings.C07
-open ChibiVerif.Host ChibiVerif.Gen.ConstEval ChibiVerif.Spec.Const ChibiVerif.ConstElab
+open ChibiVerif.Host ChibiVerif.Gen.ConstEval ChibiVerif.Spec.Const ChibiVerif.ConstElab ChibiVerif.ConstEvalLemmas
+open ChibiVerif.Props.C07
+
+/-! ## Open finding: `is_const_expr` evaluates the condition of a `?:` that sits in an unevaluated operand -/
+
+/-- `1 || (1/0 ? 1 : 2)` -/
+def unevaluatedCond : CExpr :=
+  .lor (.lit .i32 1) (.cond (.bin .div (.lit .i32 1) (.lit .i32 0)) (.lit .i32 1) (.lit .i32 2))
+
+/-- it is an integer constant expression with the value 1 (C11 6.6p3 footnote 115: the right operand is not evaluated),
+    the folder agrees … -/
+theorem unevaluatedCond_value :
+    Spec.Const.eval unevaluatedCond = some 1 ∧ eval2 .wrapping noFp (elabE unevaluatedCond) false = .ok 1#64 := by decide
+
+/-- … but `is_const_expr` answers with the division diagnostic (so `int a[1 || (1/0 ? 1 : 2)];` is rejected;
+    gcc accepts it with 1 element).  Hence the full constness statement does not hold for the code as it is. -/
+theorem C07_finding_unevaluated_cond :
+    isConstExpr .wrapping noFp (elabE unevaluatedCond) = .error (.diag "division by zero in a constant expression") := by decide
+
+theorem C07_constness_Statement_fails : ¬ C07_constness_Statement := by
+  intro h
+  have h1 := h noFp unevaluatedCond 1 unevaluatedCond_value.1
+  rw [C07_finding_unevaluated_cond] at h1
+  cases h1
+
+/-! ## The host arithmetic of the folder: C11-defined `unsigned long` expressions execute host-undefined signed overflow -/
+
+/-- `0x7fffffffffffffffUL + 1` has the C11 value 2^63; the folder computes it as `int64_t + int64_t`: undefined in the host's
+    abstract machine (strict), the right bits on a wrapping host -/
+theorem C07_host_signed_overflow :
+    Spec.Const.eval (.bin .add (.lit .u64 9223372036854775807) (.lit .i32 1)) = some 9223372036854775808 ∧
+    eval2 .strict noFp (elabE (.bin .add (.lit .u64 9223372036854775807) (.lit .i32 1))) false
+      = .error (.hostUB "signed overflow in +") ∧
+    eval2 .wrapping noFp (elabE (.bin .add (.lit .u64 9223372036854775807) (.lit .i32 1))) false
+      = .ok (BitVec.ofInt 64 9223372036854775808) := by decide
+
+/-- same for `-`, `*`, unary `-` and `<<` on `unsigned long` -/
+theorem C07_host_signed_overflow_others :
+    eval2 .strict noFp (elabE (.bin .sub (.lit .u64 9223372036854775808) (.lit .u64 1))) false = .error (.hostUB "signed overflow in -") ∧
+    eval2 .strict noFp (elabE (.bin .mul (.lit .u64 4294967296) (.lit .u64 4294967296))) false = .error (.hostUB "signed overflow in *") ∧
+    eval2 .strict noFp (elabE (.un .neg (.lit .u64 9223372036854775808))) false = .error (.hostUB "signed overflow in unary -") ∧
+    eval2 .strict noFp (elabE (.bin .shl (.lit .u64 1) (.lit .i32 63))) false = .error (.hostUB "signed overflow in <<") := by decide
+
+/-! ## Repaired defects of the pinned tree (regression witnesses: these now evaluate to the C11 value) -/
+
+/-- `long x = -1 + 0;` folded to 4294967295 -/
+theorem C07_fixed_minus_one :
+    eval2 .wrapping noFp (elabE (.bin .add (.un .neg (.lit .i32 1)) (.lit .i32 0))) false = .ok (BitVec.ofInt 64 (-1)) := by decide
+/-- `~0u >> 1` folded to 0xffffffff -/
+theorem C07_fixed_not_shr :
+    eval2 .wrapping noFp (elabE (.bin .shr (.un .bitnot (.lit .u32 0)) (.lit .i32 1))) false = .ok 2147483647#64 := by decide
+/-- `(_Bool)256` folded to 0 -/
+theorem C07_fixed_bool_cast : eval2 .wrapping noFp (elabE (.cast .bool (.lit .i32 256))) false = .ok 1#64 := by decide
+/-- `int x = 1/0;` killed cc1 with SIGFPE -/
+theorem C07_fixed_div_zero :
+    eval2 .wrapping noFp (elabE (.bin .div (.lit .i32 1) (.lit .i32 0))) false
+      = .error (.diag "division by zero in a constant expression") := by decide
+/-- `int a[7 % 4]` became a VLA -/
+theorem C07_fixed_mod_const : isConstExpr .wrapping noFp (elabE (.bin .mod (.lit .i32 7) (.lit .i32 4))) = .ok true := by decide
+/-- `static _Bool b = 2;` stored 2 -/
+theorem C07_fixed_bool_init : storeGvar noFp (descr .bool) (elabE (.lit .i32 2)) 2#64 = .ok 1#64 := by decide
 
 end ChibiVerif.Findings.C07
